@@ -4,8 +4,9 @@ C18 — SetTimeRange replaces earlier time bounds, over any sequence of windows.
 
 Model: `Model/SetTimeRange.lean` (`rewriteNoTime` = `rewriteWithoutTimeDimensions` before
 printing, `setTimeRange` = print → `ParseExpr` → `CReduce(·, nil)`, `setTimeRangeSeq`),
-`Model/SetTimeRangeSpec.lean` (`nonTimeHolds`, the class `timeOnLeft`, the hypotheses `RT`,
-`WindowOK`). The meaning of a condition at a point is C10's `holds`; by `C10.split_sound` this is
+`Model/SetTimeRangeSpec.lean` (`nonTimeHolds`, the class `strClass`, the hypotheses `RT`,
+`WindowOK`). The model follows /repo after the fixes 51161c4 (a bound is recognised by a reference
+to `time` on either side, in any letter case, typed or not) and 86fc254 (calls are kept). The meaning of a condition at a point is C10's `holds`; by `C10.split_sound` this is
 also what `ConditionExpr` observes on the conditions concerned.
 
 Hypotheses, all explicit in the statements:
@@ -20,28 +21,29 @@ namespace InfluxQL.C18
 open InfluxQL Gen
 open InfluxQL.CondTime
 
-/-- **One call.** For a condition whose time bounds are written `time ⋈ x` and whose other
-predicates contain no calls, `SetTimeRange(start, end)` succeeds and the new condition holds at a
+/-- **One call.** For a condition of the class (time bounds with `time` — any letter case, any
+type annotation — on either side of any operator, other predicates comparing a tag or field with a
+reference, literal or call), `SetTimeRange(start, end)` succeeds and the new condition holds at a
 point exactly when `start ≤ t < end` and the non-time part of the old condition holds; the new
 condition is again in the class, has the same non-time part, and has at most eight nodes more than
 the old one. -/
 theorem setTimeRange_step (ctx : CCtx) (fa : FloatArith) (c : Expr) (w : Window)
-    (hcls : timeOnLeft ctx.lowerTbl c = true) (hT : isTimeRef ctx.lowerTbl timeVar = true)
+    (hcls : strClass ctx.lowerTbl c = true) (hT : isTimeRef ctx.lowerTbl timeVar = true)
     (hrt : RT ctx.lowerTbl c w) :
-    ∃ c', setTimeRange fa ctx.lowerTbl (some c) w = .ok c' ∧ c' = stepSpec fa c w ∧
+    ∃ c', setTimeRange fa ctx.lowerTbl (some c) w = .ok c' ∧ c' = stepSpec fa ctx.lowerTbl c w ∧
       (WindowOK ctx w → ∀ L t, holds ctx L t c' = (w.contains t && nonTimeHolds ctx.lowerTbl L c)) ∧
-      timeOnLeft ctx.lowerTbl c' = true ∧
+      strClass ctx.lowerTbl c' = true ∧
       (∀ L, nonTimeHolds ctx.lowerTbl L c' = nonTimeHolds ctx.lowerTbl L c) ∧
       c'.size ≤ c.size + 8 := by
-  refine ⟨stepSpec fa c w, setTimeRange_of_RT ctx.lowerTbl fa c w hcls hrt, rfl, ?_⟩
+  refine ⟨stepSpec fa ctx.lowerTbl c w, setTimeRange_of_RT ctx.lowerTbl fa c w hcls hrt, rfl, ?_⟩
   obtain ⟨hN, hev, hsz⟩ := ntPart_spec ctx.lowerTbl fa c hcls
-  obtain ⟨b1, b2, b3, b4, _⟩ := build_spec ctx fa (ntPart fa c) w hN hT
+  obtain ⟨b1, b2, b3, b4, _⟩ := build_spec ctx fa (ntPart fa ctx.lowerTbl c) w hN hT
   rw [stepSpec_eq]
   refine ⟨?_, b1, ?_, ?_⟩
   · intro hw L t
-    rw [show creduce (nilRCtx fa) (rewriteNoTime c) = ntPart fa c from rfl, b3 hw L t, hev L]
+    rw [show creduce (nilRCtx fa) (rewriteNoTime ctx.lowerTbl c) = ntPart fa ctx.lowerTbl c from rfl, b3 hw L t, hev L]
   · intro L
-    rw [show creduce (nilRCtx fa) (rewriteNoTime c) = ntPart fa c from rfl, b2 L, hev L]
+    rw [show creduce (nilRCtx fa) (rewriteNoTime ctx.lowerTbl c) = ntPart fa ctx.lowerTbl c from rfl, b2 L, hev L]
   · exact Nat.le_trans b4 (by omega)
 
 /-- **One call, as the query engine sees it**: `ConditionExpr` of the new condition succeeds; its
@@ -49,16 +51,16 @@ residual has the value of the old non-time part, and its range is exactly `[star
 (unless the non-time part folds to `false`, where the whole condition is `false` and no range is
 needed). Window instants must be representable time literals (`MinTime < t ≤ MaxTime`). -/
 theorem setTimeRange_observed (ctx : CCtx) (fa : FloatArith) (c : Expr) (w : Window)
-    (hcls : timeOnLeft ctx.lowerTbl c = true) (hT : isTimeRef ctx.lowerTbl timeVar = true)
+    (hcls : strClass ctx.lowerTbl c = true) (hT : isTimeRef ctx.lowerTbl timeVar = true)
     (hrt : RT ctx.lowerTbl c w) (hw : WindowOK ctx w) (hr : w.inRange) :
     ∃ c' res tr, setTimeRange fa ctx.lowerTbl (some c) w = .ok c' ∧
       ConditionExpr ctx (some c') = .ok (res, tr) ∧
       (∀ L, evalOpt L res = nonTimeHolds ctx.lowerTbl L c) ∧
-      (ntPart fa c ≠ .boolean false → tr = ⟨w.start, w.stop - 1⟩) ∧
-      (ntPart fa c = .boolean false → tr = {}) := by
+      (ntPart fa ctx.lowerTbl c ≠ .boolean false → tr = ⟨w.start, w.stop - 1⟩) ∧
+      (ntPart fa ctx.lowerTbl c = .boolean false → tr = {}) := by
   obtain ⟨hN, hev, _⟩ := ntPart_spec ctx.lowerTbl fa c hcls
-  obtain ⟨res, tr, h1, h2, h3, h4⟩ := conditionExpr_build ctx fa (ntPart fa c) w hN hT hw hr
-  refine ⟨stepSpec fa c w, res, tr, setTimeRange_of_RT ctx.lowerTbl fa c w hcls hrt, ?_, ?_, h3, h4⟩
+  obtain ⟨res, tr, h1, h2, h3, h4⟩ := conditionExpr_build ctx fa (ntPart fa ctx.lowerTbl c) w hN hT hw hr
+  refine ⟨stepSpec fa ctx.lowerTbl c w, res, tr, setTimeRange_of_RT ctx.lowerTbl fa c w hcls hrt, ?_, ?_, h3, h4⟩
   · rw [stepSpec_eq]; exact h1
   · intro L; rw [h2 L, hev L]
 
@@ -85,21 +87,22 @@ theorem SeqOK.forall_mem (P : Expr → Window → Prop) :
     · exact SeqOK.forall_mem P xs ws b c hm'
 
 /-- Size of the reduced non-time part: the quantity that never grows. -/
-def core (fa : FloatArith) (c : Expr) : Nat := (ntPart fa c).size
+def core (fa : FloatArith) (tbl : List (Char × Char)) (c : Expr) : Nat := (ntPart fa tbl c).size
 
-theorem core_le_size (tbl : List (Char × Char)) (fa : FloatArith) (c : Expr) (h : timeOnLeft tbl c = true) :
-    core fa c ≤ c.size := (ntPart_spec tbl fa c h).2.2
+theorem core_le_size (tbl : List (Char × Char)) (fa : FloatArith) (c : Expr) (h : strClass tbl c = true) :
+    core fa tbl c ≤ c.size := (ntPart_spec tbl fa c h).2.2
 
 theorem core_step (ctx : CCtx) (fa : FloatArith) (c : Expr) (w : Window)
-    (hcls : timeOnLeft ctx.lowerTbl c = true) (hT : isTimeRef ctx.lowerTbl timeVar = true) :
-    core fa (stepSpec fa c w) ≤ core fa c ∧ (stepSpec fa c w).size ≤ core fa c + 8 := by
+    (hcls : strClass ctx.lowerTbl c = true) (hT : isTimeRef ctx.lowerTbl timeVar = true) :
+    core fa ctx.lowerTbl (stepSpec fa ctx.lowerTbl c w) ≤ core fa ctx.lowerTbl c ∧
+      (stepSpec fa ctx.lowerTbl c w).size ≤ core fa ctx.lowerTbl c + 8 := by
   obtain ⟨hN, _, _⟩ := ntPart_spec ctx.lowerTbl fa c hcls
-  obtain ⟨_, _, _, b4, b5⟩ := build_spec ctx fa (ntPart fa c) w hN hT
+  obtain ⟨_, _, _, b4, b5⟩ := build_spec ctx fa (ntPart fa ctx.lowerTbl c) w hN hT
   rw [stepSpec_eq]
   refine ⟨?_, b4⟩
   unfold core
-  rw [show ntPart fa (build fa (creduce (nilRCtx fa) (rewriteNoTime c)) w)
-      = creduce (nilRCtx fa) (rewriteNoTime (build fa (ntPart fa c) w)) from rfl, b5]
+  rw [show ntPart fa ctx.lowerTbl (build fa (creduce (nilRCtx fa) (rewriteNoTime ctx.lowerTbl c)) w)
+      = creduce (nilRCtx fa) (rewriteNoTime ctx.lowerTbl (build fa (ntPart fa ctx.lowerTbl c) w)) from rfl, b5]
   exact (reduce_resTF ctx.lowerTbl (nilRCtx fa) _ hN).2
 
 /-- **Any sequence of windows** (as a continuous query makes them): every call succeeds; after
@@ -107,19 +110,19 @@ call `k` the condition holds exactly on window `k` and the non-time part of the 
 condition — no earlier window and no earlier bound is left — and its size stays within the
 original size plus eight nodes, however many calls were made. By induction on the window list. -/
 theorem setTimeRange_seq (ctx : CCtx) (fa : FloatArith) (hT : isTimeRef ctx.lowerTbl timeVar = true) :
-    ∀ (ws : List Window) (c : Expr), timeOnLeft ctx.lowerTbl c = true → RTSeq fa ctx.lowerTbl c ws →
+    ∀ (ws : List Window) (c : Expr), strClass ctx.lowerTbl c = true → RTSeq fa ctx.lowerTbl c ws →
       ∃ cs : List Expr, setTimeRangeSeq fa ctx.lowerTbl (some c) ws = cs.map Except.ok ∧
         SeqOK (fun c' w =>
           (WindowOK ctx w → ∀ L t, holds ctx L t c' = (w.contains t && nonTimeHolds ctx.lowerTbl L c)) ∧
-          c'.size ≤ core fa c + 8) cs ws
+          c'.size ≤ core fa ctx.lowerTbl c + 8) cs ws
   | [], c, _, _ => ⟨[], rfl, trivial⟩
   | w :: ws, c, hcls, hrt => by
     obtain ⟨hrt1, hrts⟩ := hrt
     obtain ⟨c', hset, hc', hholds, hcls', hnt, _⟩ := setTimeRange_step ctx fa c w hcls hT hrt1
     subst hc'
-    obtain ⟨cs, hcs, hok⟩ := setTimeRange_seq ctx fa hT ws (stepSpec fa c w) hcls' hrts
+    obtain ⟨cs, hcs, hok⟩ := setTimeRange_seq ctx fa hT ws (stepSpec fa ctx.lowerTbl c w) hcls' hrts
     have hcore := core_step ctx fa c w hcls hT
-    refine ⟨stepSpec fa c w :: cs, ?_, ⟨hholds, hcore.2⟩, ?_⟩
+    refine ⟨stepSpec fa ctx.lowerTbl c w :: cs, ?_, ⟨hholds, hcore.2⟩, ?_⟩
     · simp only [setTimeRangeSeq, hset, hcs, List.map_cons]
     · refine SeqOK.imp ?_ cs ws hok
       intro c'' w'' ⟨h1, h2⟩
@@ -130,7 +133,7 @@ theorem setTimeRange_seq (ctx : CCtx) (fa : FloatArith) (hT : isTimeRef ctx.lowe
 /-- **The condition does not grow**: after any number of calls its size is at most the size of the
 original condition plus `K = 8` nodes (the two bounds and the two `AND`s). -/
 theorem size_bounded (ctx : CCtx) (fa : FloatArith) (hT : isTimeRef ctx.lowerTbl timeVar = true)
-    (ws : List Window) (c : Expr) (hcls : timeOnLeft ctx.lowerTbl c = true) (hrt : RTSeq fa ctx.lowerTbl c ws) :
+    (ws : List Window) (c : Expr) (hcls : strClass ctx.lowerTbl c = true) (hrt : RTSeq fa ctx.lowerTbl c ws) :
     ∃ cs : List Expr, setTimeRangeSeq fa ctx.lowerTbl (some c) ws = cs.map Except.ok ∧
       ∀ c' ∈ cs, c'.size ≤ c.size + 8 := by
   obtain ⟨cs, h1, h2⟩ := setTimeRange_seq ctx fa hT ws c hcls hrt
@@ -143,7 +146,7 @@ theorem size_bounded (ctx : CCtx) (fa : FloatArith) (hT : isTimeRef ctx.lowerTbl
 /-- **Only the last window applies**: after a non-empty sequence of calls the final condition
 holds exactly on the last window and the original non-time part. -/
 theorem only_last_window_applies (ctx : CCtx) (fa : FloatArith) (hT : isTimeRef ctx.lowerTbl timeVar = true)
-    (ws : List Window) (wl : Window) (c : Expr) (hcls : timeOnLeft ctx.lowerTbl c = true)
+    (ws : List Window) (wl : Window) (c : Expr) (hcls : strClass ctx.lowerTbl c = true)
     (hrt : RTSeq fa ctx.lowerTbl c (ws ++ [wl])) (hw : WindowOK ctx wl) :
     ∃ cs cl, setTimeRangeSeq fa ctx.lowerTbl (some c) (ws ++ [wl]) = (cs ++ [cl]).map Except.ok ∧
       ∀ L t, holds ctx L t cl = (wl.contains t && nonTimeHolds ctx.lowerTbl L c) := by
@@ -168,7 +171,7 @@ theorem only_last_window_applies (ctx : CCtx) (fa : FloatArith) (hT : isTimeRef 
   subst e
   exact ⟨cs', cl, h1, p.1 hw⟩
 
-/-! ### Outside the class: the known defect classes (kernel-checked) -/
+/-! ### Kernel-checked examples: the repaired behaviours, and the defect that remains -/
 
 def ctx0 : CCtx := { r := { valuer := some ⟨946684800000000000, none⟩, fa := fun _ _ _ => ⟨false, 0, 0⟩ } }
 def fa0 : FloatArith := fun _ _ _ => ⟨false, 0, 0⟩
@@ -182,47 +185,51 @@ theorem table_ok : isTimeRef ctx0.lowerTbl timeVar = true := by decide
 theorem window_ok : WindowOK ctx0 w1 := by
   refine ⟨?_, ?_, ?_, ?_⟩ <;> decide
 
-/-- `'2000-01-01T00:00:00Z' <= time AND host = 'a'`: the bound written with `time` on the right is
-not recognised by the rewrite (it compares the *printed left operand* with `time`), so it
-survives: after `SetTimeRange` to a window in 1970 the condition selects nothing, although the
-point lies in the window and satisfies `host = 'a'`. -/
-theorem reversed_bound_survives :
+/-- `'2000-01-01T00:00:00Z' <= time AND host = 'a'` (bound written with `time` on the right; kept
+for ever before 51161c4): in the class; the bound is replaced, and after `SetTimeRange` to a window
+in 1970 a point of the window with `host = 'a'` is selected. -/
+theorem reversed_bound_replaced :
     let c := Expr.binary .AND (.binary .LTE (.string "2000-01-01T00:00:00Z".toList) timeVar) hostEqA
-    timeOnLeft ctx0.lowerTbl c = false ∧
-    (rewriteNoTime c).print = c.print ∧
-    (stepSpec fa0 c w1).print = ("'2000-01-01T00:00:00Z' <= time AND host = 'a' AND " ++
-      "time >= '1970-01-01T00:16:40Z' AND time < '1970-01-01T00:17:40Z'").toList ∧
+    strClass ctx0.lowerTbl c = true ∧
+    (rewriteNoTime ctx0.lowerTbl c).print = "true AND host = 'a'".toList ∧
+    (stepSpec fa0 ctx0.lowerTbl c w1).print =
+      "host = 'a' AND time >= '1970-01-01T00:16:40Z' AND time < '1970-01-01T00:17:40Z'".toList ∧
     w1.contains 1000000000001 = true ∧ nonTimeHolds ctx0.lowerTbl allTrue c = true ∧
-    holds ctx0 allTrue 1000000000001 (stepSpec fa0 c w1) = false := by
+    holds ctx0 allTrue 1000000000001 (stepSpec fa0 ctx0.lowerTbl c w1) = true := by
   decide +kernel
 
-/-- `TIME > 5` (other letter case): `ConditionExpr` treats it as a time bound, the rewrite does not,
-so it survives; a window below the bound then selects nothing. -/
-theorem other_case_bound_survives :
+/-- `TIME > 5` and `time::integer > 5` (other letter case, type annotation; kept before 51161c4):
+in the class and replaced; a window below the old bound selects its points. -/
+theorem other_case_bound_replaced :
     let c := Expr.binary .GT (.varRef ['T', 'I', 'M', 'E'] .Unknown) (.integer 5)
+    let c2 := Expr.binary .GT (.varRef ['t', 'i', 'm', 'e'] .Integer) (.integer 5)
     let w : Window := ⟨0, 4⟩
-    timeOnLeft ctx0.lowerTbl c = false ∧
-    (stepSpec fa0 c w).print = ("TIME > 5 AND time >= '1970-01-01T00:00:00Z' AND " ++
-      "time < '1970-01-01T00:00:00.000000004Z'").toList ∧
+    strClass ctx0.lowerTbl c = true ∧ strClass ctx0.lowerTbl c2 = true ∧
+    (stepSpec fa0 ctx0.lowerTbl c w).print =
+      "time >= '1970-01-01T00:00:00Z' AND time < '1970-01-01T00:00:00.000000004Z'".toList ∧
+    (stepSpec fa0 ctx0.lowerTbl c2 w).print = (stepSpec fa0 ctx0.lowerTbl c w).print ∧
     w.contains 2 = true ∧ nonTimeHolds ctx0.lowerTbl allTrue c = true ∧
-    holds ctx0 allTrue 2 (stepSpec fa0 c w) = false := by
+    holds ctx0 allTrue 2 (stepSpec fa0 ctx0.lowerTbl c w) = true := by
   decide +kernel
 
-/-- `v > abs(w)`: every call is replaced by `true`, wherever it stands: the predicate becomes
-`v > true`. -/
-theorem call_in_predicate_becomes_true :
+/-- `v > abs(w)` (became `v > true` before 86fc254): in the class; the call is kept, also when a
+time bound with `now()` stands next to it. -/
+theorem call_in_predicate_kept :
     let c := Expr.binary .GT (.varRef ['v'] .Unknown) (.call ['a', 'b', 's'] [.varRef ['w'] .Unknown])
-    timeOnLeft ctx0.lowerTbl c = false ∧
-    (rewriteNoTime c).print = "v > true".toList ∧
-    (stepSpec fa0 c w1).print =
-      "v > true AND time >= '1970-01-01T00:16:40Z' AND time < '1970-01-01T00:17:40Z'".toList := by
+    let c2 := Expr.binary .AND c
+      (.binary .GT timeVar (.binary .SUB (.call ['n', 'o', 'w'] []) (.duration 3600000000000)))
+    strClass ctx0.lowerTbl c = true ∧ strClass ctx0.lowerTbl c2 = true ∧
+    (rewriteNoTime ctx0.lowerTbl c).print = "v > abs(w)".toList ∧
+    (stepSpec fa0 ctx0.lowerTbl c w1).print =
+      "v > abs(w) AND time >= '1970-01-01T00:16:40Z' AND time < '1970-01-01T00:17:40Z'".toList ∧
+    (stepSpec fa0 ctx0.lowerTbl c2 w1).print = (stepSpec fa0 ctx0.lowerTbl c w1).print := by
   decide +kernel
 
 /-- `host = 'a' OR host = 'b'`: the rewritten condition is printed without parentheses in front of
 ` AND time >= … AND time < …`. The parser's insertion step (`insertOp`, the loop of `ParseExpr`)
 hangs the `AND`s below the right operand of the `OR`, so the window only guards `host = 'b'`:
 the resulting tree holds at a point outside the window. (`RT` fails for this condition; that the
-implementation produces exactly this tree is shown by the correspondence stream.) -/
+implementation produces exactly this tree is shown by the correspondence stream. Still open.) -/
 theorem top_level_or_regroups :
     let ge := geBound w1.start
     let lt := ltBound w1.stop
@@ -243,16 +250,16 @@ def sample : Expr :=
     (.paren (.binary .OR (.binary .EQ (.varRef ['r'] .Unknown) (.string ['x']))
       (.binary .EQ (.varRef ['r'] .Unknown) (.string ['y']))))
 
-example : timeOnLeft ctx0.lowerTbl sample = true := by decide
-example : (stepSpec fa0 sample w1).print =
+example : strClass ctx0.lowerTbl sample = true := by decide
+example : (stepSpec fa0 ctx0.lowerTbl sample w1).print =
     ("host = 'a' AND (r = 'x' OR r = 'y') AND time >= '1970-01-01T00:16:40Z' AND " ++
       "time < '1970-01-01T00:17:40Z'").toList := by decide +kernel
-example : (stepSpec fa0 (stepSpec fa0 sample w1) ⟨5, 6⟩).print =
+example : (stepSpec fa0 ctx0.lowerTbl (stepSpec fa0 ctx0.lowerTbl sample w1) ⟨5, 6⟩).print =
     ("host = 'a' AND (r = 'x' OR r = 'y') AND time >= '1970-01-01T00:00:00.000000005Z' AND " ++
       "time < '1970-01-01T00:00:00.000000006Z'").toList := by decide +kernel
-example : holds ctx0 allTrue 1000000000000 (stepSpec fa0 sample w1) = true ∧
-    holds ctx0 allTrue 1059999999999 (stepSpec fa0 sample w1) = true ∧
-    holds ctx0 allTrue 1060000000000 (stepSpec fa0 sample w1) = false ∧
-    holds ctx0 allTrue 999999999999 (stepSpec fa0 sample w1) = false := by decide +kernel
+example : holds ctx0 allTrue 1000000000000 (stepSpec fa0 ctx0.lowerTbl sample w1) = true ∧
+    holds ctx0 allTrue 1059999999999 (stepSpec fa0 ctx0.lowerTbl sample w1) = true ∧
+    holds ctx0 allTrue 1060000000000 (stepSpec fa0 ctx0.lowerTbl sample w1) = false ∧
+    holds ctx0 allTrue 999999999999 (stepSpec fa0 ctx0.lowerTbl sample w1) = false := by decide +kernel
 
 end InfluxQL.C18
